@@ -33,7 +33,7 @@ def eval_call(ev: Ev, n: ast.Call) -> Val:
 	f = n.func
 	if isinstance(f, ast.Name):
 		name = f.id
-		if name in ev.st.env and not isinstance(ev.st.env[name], (FuncRef, ClassRef, SpecRef)):
+		if name in ev.st.env and not isinstance(ev.st.env[name], (FuncRef, ClassRef, SpecRef)) and not (ev.mode == 'spec' and name in ('old', 'prev', 'cut')):
 			raise EngineError(f'call of a value: {txt[:60]} (add a rewrite for this external call)')
 		if name == 'old':
 			o = ev.old or getattr(ev.fn, 'entry', None)
@@ -415,6 +415,15 @@ def b_fzero(ev: Ev, n: ast.Call) -> Val:
 	return Val(BOOL, z3.Function('fiszero', FLOAT.sort(), z3.BoolSort())(v.term))
 
 
+def b_cut(ev: Ev, n: ast.Call) -> Val:
+	"""cut(P) in a hint: P becomes an obligation of its own at this point and is then available as a fact (an intermediate assertion)."""
+	t = ev.truth(n.args[0])
+	g = z3.And(*ev.guards) if ev.guards else None
+	ev.eng.oblige(ev.fn, 'cut', ev.st, z3.Implies(g, t) if g is not None else t, ast.unparse(n.args[0]))
+	ev.st.assume(z3.Implies(g, t) if g is not None else t)
+	return Val(BOOL, z3.BoolVal(True))
+
+
 def b_tuple(ev: Ev, n: ast.Call) -> Val:
 	return ev.iter_values(n.args[0])
 
@@ -422,7 +431,7 @@ def b_tuple(ev: Ev, n: ast.Call) -> Val:
 BUILTIN_FUNCS = {
 	'len': b_len, 'int': b_int, 'float': b_float, 'str': b_str, 'bool': b_bool, 'isinstance': b_isinstance,
 	'min': b_minmax('min'), 'max': b_minmax('max'), 'cast': b_cast, 'implies': b_implies, 'list': b_list,
-	'callable': b_callable, 'init': b_init, 'last': b_last, 'fzero': b_fzero, 'sorted': b_sorted, 'type': b_type, 'abs': b_abs, 'tuple': b_tuple,
+	'callable': b_callable, 'init': b_init, 'last': b_last, 'fzero': b_fzero, 'cut': b_cut, 'sorted': b_sorted, 'type': b_type, 'abs': b_abs, 'tuple': b_tuple,
 }
 
 
